@@ -41,6 +41,7 @@ from lsst.utils.iteration import chunk_iterable
 
 from ..._collection_type import CollectionType
 from ..._exceptions import CollectionCycleError, CollectionTypeError, MissingCollectionError
+from .._exceptions import ConflictingDefinitionError
 from ...timespan_database_representation import TimespanDatabaseRepresentation
 from .._collection_record_cache import CollectionRecordCache
 from ..interfaces import ChainedCollectionRecord, CollectionManager, CollectionRecord, RunRecord, VersionTuple
@@ -266,6 +267,12 @@ class DefaultCollectionManager(CollectionManager[K]):
             else:
                 record = CollectionRecord[K](key=collection_id, name=name, type=type)
             self._addCachedRecord(record)
+        elif record.type is not type:
+            # Same answer as the database gives (via `sync`) when another
+            # client registers the name between our lookup and our insert.
+            raise ConflictingDefinitionError(
+                f"Collection '{name}' already exists with type {record.type.name}, not {type.name}."
+            )
         return record, registered
 
     def remove(self, name: str) -> None:
